@@ -16,10 +16,11 @@ THEOREMS = [
     "C10_tlvmsg_roundtrip", "C10_tlvmsg_fixpoint", "C10_tlvmsg_loss_exactly_unknown",
     "C10_gen_tlvmsgs_ok", "C10_gen_layouts_ok", "C10_gen_matches_handwritten",
     "C10_failure_roundtrip", "C10_gen_failures_ok", "C10_tlvmsg_always_record_grows",
+    "C10_feature_vector_roundtrip",
 ]
 MODULE = "LV.Wire.Props"
 TARGETS = ["theories/Wire/Props.vo", "theories/Wire/Exec.vo", "theories/Wire/Examples.vo",
-           "theories/Gen/GenWireSym.vo"]
+           "theories/Gen/GenWireSym.vo", "theories/Wire/GenBridge.vo"]
 H_TLV = ["tlv/verif_tlv_test.go"]
 H_WIRE = ["lnwire/verif_wire_test.go"]
 WARM = [{"pkg": "tlv", "files": H_TLV, "moddir": "tlv"},
@@ -37,6 +38,11 @@ DROP_TYPES = {32, 33, 34, 35, 36, 39, 40, 41, 133, 136, 258, 263, 264, 265}
 
 MAX_SCIDS = 100000          # lnwire.maxDecodedShortChanIDs (zlib decode bound)
 MAX_COQ_BYTES = 6000        # longer inputs are checked by the python predicates only
+MAX_COQ_FEAT = 40000        # ... except the feature-vector boundary rows (8192-byte vectors)
+
+
+def coq_cap(r):
+    return MAX_COQ_FEAT if str(r.get("mut", "")).startswith("feat") else MAX_COQ_BYTES
 U64 = 1 << 64
 
 # ------------------------------------------------------------------ Coq terms
@@ -226,7 +232,12 @@ def prepare_model_rows(wrows, gen):
                 continue
             out.append(dict(r, fields=f, model=True))
             continue
-        if "b" not in r or len(r["b"]) > 2 * MAX_COQ_BYTES or r.get("panic"):
+        if "b" not in r or len(r["b"]) > 2 * coq_cap(r) or r.get("panic"):
+            continue
+        if r.get("feat_over"):
+            # a feature vector of 8193 bytes with a non-zero top byte: lnd converts the bit
+            # index 65536 to FeatureBit (uint16) = 0, i.e. aliases it; the model is faithful
+            # only up to the uint16 bit range (8192 bytes).  Predicates only.
             continue
         q = dict(r, model=True)
         if r["ok"]:
@@ -532,7 +543,7 @@ def run(ctx):
             if f:
                 report("C10_fixpoint", r, f, sig)
         elif k in ("val", "failval"):
-            whist["%s:%s" % (k, "ok" if r["ok"] else "err")] += 1
+            whist["%s:%s:%s" % (k, r.get("mut", "gen"), "ok" if r["ok"] else "err")] += 1
             f = pred_val(r)
             if f:
                 report("C10_layout_roundtrip", r, f, None)
@@ -542,7 +553,7 @@ def run(ctx):
     mrows = prepare_model_rows(wrows, gen)
     crow = [r for r in rows if len(r.get("b", "")) <= 2 * MAX_COQ_BYTES]
     crow += [r for r in mrows
-             if len(r.get("b", "") or r.get("out", "")) <= 2 * MAX_COQ_BYTES]
+             if len(r.get("b", "") or r.get("out", "")) <= 2 * coq_cap(r)]
     frows = failure_model_rows(wrows, load_gen_failures())
     if not ctx.thorough and len(frows) > 600:
         # quick tier: an evenly spread sample (all rows are predicate-checked above)
@@ -593,6 +604,9 @@ def run(ctx):
         "layout_modelled_cases": len(mrows),
         "tlv_message_cases": sum(1 for r in mrows if r.get("tlvmsg")),
         "failure_model_cases": len(frows),
+        "feature_boundary_rows": sum(1 for r in wrows if str(r.get("mut", "")).startswith("feat")),
+        "feature_boundary_model_cases": sum(1 for r in mrows
+                                            if str(r.get("mut", "")).startswith("feat")),
         "failure_codes_modelled": sorted(load_gen_failures()),
         "generated_layout_types": sorted(t for t in gen if t != CUSTOM_FIRST),
         "samples": [rows[0], {k: v for k, v in wrows[0].items() if k != "b"}],
